@@ -75,7 +75,12 @@ fn main() -> std::io::Result<()> {
     // See https://github.com/dandavison/delta/issues/681
     ctrlc::set_handler(|| {})
         .unwrap_or_else(|err| eprintln!("Failed to set ctrl-c handler: {err}"));
-    let exit_code = run_app(std::env::args_os().collect::<Vec<_>>(), None)?;
+    let exit_code = match run_app(std::env::args_os().collect::<Vec<_>>(), None) {
+        Ok(exit_code) => exit_code,
+        // The reader (pager, `| head`) went away: stop quietly, as when rendering a diff.
+        Err(error) if error.kind() == ErrorKind::BrokenPipe => 0,
+        Err(error) => return Err(error),
+    };
     // when you call process::exit, no drop impls are called, so we want to do it only once, here
     process::exit(exit_code);
 }
